@@ -427,6 +427,30 @@ def insertSideOK (s : St) (p : Pt) (d : Nat) (hint : Nat) : Bool :=
        | _ => true)
     | none => true
 
+/-- the side condition that remains once the locate answer is known to be true (it is, in every
+state with the full invariant `WInv`): only the hull-extending and chain steps -/
+def insertSideOK0 (s : St) (p : Pt) (d : Nat) (hint : Nat) : Bool :=
+  if s.nV < 2 then true
+  else if s.nF = 1 then
+    match s.locateOnLine p with
+    | .onEdge e => decide (e < s.nE)
+    | .onVertex _ => true
+    | .notOnLine e => s.outsideOK e p d
+    | .extending v => s.extendOK v
+  else
+    match s.locateM p hint with
+    | some (.outside e) => s.outsideOK e p d
+    | _ => true
+
+/-- insertion histories with the reduced side conditions -/
+def insertAllSideOK0 (s : St) : List (Pt × Nat × Nat) → Bool
+  | [] => true
+  | (p, d, hint) :: rest =>
+    s.insertSideOK0 p d hint &&
+      (match s.insertM p d hint with
+       | some (t, _) => insertAllSideOK0 t rest
+       | none => true)
+
 /-- comparison of the model state with a dump: links, anchors, positions and payload -/
 def sameStructure (a b : St) : Bool :=
   a.pos == b.pos && a.data == b.data && a.vOut == b.vOut && a.fAdj == b.fAdj &&
